@@ -329,20 +329,19 @@ def removalCmdsFor (s : St) (ty : Nat) (e : Nat) : List Cmd :=
   let rt : RType := ⟨.rem, ty⟩
   (entListeners s e rt).map (fun r => Cmd.reactEnt e rt r) ++ (s.tbl .rem ty).map (fun h => Cmd.reactEnt e rt h.sys)
 
+/-- One removal checker: drains the removal buffer of one tracked type. -/
+def pollRemStep (acc : St × List Cmd) (ty : Nat) : St × List Cmd :=
+  ({ acc.1 with removedBuf := upd acc.1.removedBuf ty [] }, acc.2 ++ (acc.1.removedBuf ty).flatMap (removalCmdsFor acc.1 ty))
+
 /-- `schedule_removal_reactions`: drains the buffer of every tracked type. -/
-def pollRemovals (s : St) : St × List Cmd :=
-  s.tracked.foldl (fun (acc : St × List Cmd) ty =>
-    let s := acc.1
-    let buf := s.removedBuf ty
-    let cs := buf.flatMap (removalCmdsFor s ty)
-    ({ s with removedBuf := upd s.removedBuf ty [] }, acc.2 ++ cs)) (s, [])
+def pollRemovals (s : St) : St × List Cmd := s.tracked.foldl pollRemStep (s, [])
+
+/-- One received despawn: the whole reactor list of the entity is consumed. -/
+def pollDspStep (acc : St × List Cmd) (e : Nat) : St × List Cmd :=
+  ({ acc.1 with tblDsp := upd acc.1.tblDsp e [] }, acc.2 ++ (acc.1.tblDsp e).map (fun h => Cmd.reactDsp e h.sys h))
 
 /-- `schedule_despawn_reactions`: drains the despawn channel. -/
-def pollDespawns (s : St) : St × List Cmd :=
-  s.dspChan.foldl (fun (acc : St × List Cmd) e =>
-    let s := acc.1
-    let hs := s.tblDsp e
-    ({ s with tblDsp := upd s.tblDsp e [] }, acc.2 ++ hs.map (fun h => Cmd.reactDsp e h.sys h))) ({ s with dspChan := [] }, [])
+def pollDespawns (s : St) : St × List Cmd := s.dspChan.foldl pollDspStep ({ s with dspChan := [] }, [])
 
 /-! ### readers -/
 
